@@ -9,7 +9,7 @@ CLAIMED = {
              note='Trusts clang -O1 IR == shipped g++ build (differential self-test per run), symir, z3. Functional value for n >= 2^16 only through the guard step (loops of 6542 iterations not unrolled).'),
  'C04': dict(design='4/C04', text='Bounded symbolic check of the compiled slice code: slice triples (both triples for slice-to-slice assignment) are 32-bit bit-vectors over the whole int range, '
              'element values symbolic; per array length n <= 3 (quick) / 5 (thorough) every feasible path is decided by z3 against python slice semantics: throw-iff-stated, count, element identity, '
-             'no other cell written, copy-first behaviour on overlap, copies of slice objects; loads/stores at symbolic offsets carry bounds obligations; UB findings are confirmed under ASan/UBSan.',
+             'no other cell written, copy-first behaviour on overlap, copies of slice objects, the end placeholder on mutable and const arrays; loads/stores at symbolic offsets carry bounds obligations; UB findings are confirmed under ASan/UBSan.',
              note='Array length enumerated up to the bound (constructor index arithmetic checked for all n >= 0 except the count quotient); element values modelled as reals; trusts clang IR == g++ build (differential self-test), symir, z3.'),
  'C01': dict(design='4/C01', text='Per transform length (quick: every n in 1..42 plus 43, 48, 64; real/rfft/plan/pad-truncate/czt variants) the compiled code runs once with all samples symbolic; '
              'z3 QF_LRA certifies per output that the code is a fixed rational matrix for every input, and the exact Frobenius distance of that matrix to the 50-digit DFT / chirp-z matrix is '
@@ -18,7 +18,7 @@ CLAIMED = {
              note='REAL arithmetic for the data path (rounding outside the claim, twiddle/chirp table error inside); lengths above the bound not covered; czt accuracy stated relative to ||R||_F/sqrt(n).'),
  'C02': dict(design='4/C02', text='Same P-LIN certification for ifft / IfftPlan / ifft(fft(x)) (vs inverse DFT / identity, half of 64*n*eps), irfft in both input forms and irfft(rfft(x)) for every even n <= 48 (quick), '
              'odd n: the single path must end in a throw with all memory obligations met; istft(stft(x)) for every (window, overlap, nfft, range, method) tuple of the grid that the real iscola accepts: '
-             'composite map certified linear, rows with non-zero accumulated weight equal unit rows, no output divides by a zero constant.',
+             'composite map certified linear, rows with non-zero accumulated weight equal unit rows, no output divides by a zero constant; the default-argument pair istft(stft(x, nfft), nfft); irfft(X, n) directly after a rejected odd-length request in the same thread.',
              note='REAL arithmetic; irfft input assumed to be the spectrum of a real signal (Im X0 = Im X_{n/2} = 0); non-zero weight means > 1e-6 of the maximum weight.'),
  'C03': dict(design='4/C03', text='Every operator x operand-type pairing that the headers support (33 forms x 4 operators; arrays of length 0,1,3 quick / up to 8 thorough) is executed with all '
              'element values and scalars symbolic (int scalar = 32-bit bit-vector); z3 decides per result element the rational identity with the field formula, operand storage is compared by term identity, '
@@ -27,7 +27,7 @@ CLAIMED = {
              note='Field formulas over the reals (rounding / signed zeros outside; native replay tolerance 16 ulp of the result scale); lengths above the bound rely on loop uniformity; std::complex scalars only where the headers compile.'),
  'C06': dict(design='4/C06', text='Two separately constructed instances of each of 25 processor kinds run in one symbolic execution with all input samples symbolic: one gets the stream in one call, '
              'the other in up to three frames at every split point of the documented granularity, calls interleaved; outputs (and final adaptive coefficients) must be the same terms (bit-identical for every input) '
-             'or equal over the reals under the path condition; processors with data-dependent branches (median, AGC, compressor, limiter, gate) are explored over every feasible path.',
+             'or equal over the reals under the path condition; processors with data-dependent branches (median, AGC, compressor, limiter, gate) are explored over every feasible path; LMS / NLMS / RLS also with the coefficients locked after two samples.',
              note='Streams of 3..16 granules, parameter grid listed in the evidence; libm calls uninterpreted; instance independence observed through the interleaved second instance.'),
  'C07': dict(design='4/C07', text='FirFilter real/complex: taps and input both symbolic, z3 decides the exact polynomial identity with sum_k conj(c[k]) x[i-k] per output; FftFilter: LRA-certified linear map in the '
              'input (concrete taps: random, single tap at either end, symmetric) and in the taps (concrete input), rows within 1/2*64*N*eps*|c|_1 of the defining sum, output count = whole blocks, data-dependent '
@@ -39,15 +39,15 @@ CLAIMED = {
              note='n <= 5 (6) for sort/median, orders 3-5(6) for the filters; values compared as reals (no NaN); Pearson range [-1,1] not decided.'),
  'C08': dict(design='4/C08', text='FIRDecimator / FIRInterpolator / FIRRateConverter / FIRResampler for every reduced L/M with L,M <= 4 (quick) / 8 (+ audio ratios, thorough), random symmetric taps and the default design: '
              'all input samples symbolic, z3 (QF_LRA) certifies the code as a fixed matrix which must equal - at one phase shared by one-call, two-call and three-call framings - the exact matrix of insert L-1 zeros / '
-             'filter with h*L/sum(h) / keep every M-th; output count len*L/M; frames not a multiple of M end in a throw; resample(): length p\'*ceil(len/q\'), p = q returns the same terms, impulse-response centroid within one output sample of i*q/p.',
+             'filter with h*L/sum(h) / keep every M-th; output count len*L/M; frames not a multiple of M end in a throw; resample(): length p\'*ceil(len/q\'), p = q returns the same terms, impulse-response centroid within one output sample of i*q/p; every input length 1..2q+1 (reduced q) for 7 (14) ratios returns the documented sample count; where control flow depends on the data every explored path must compute the same linear map as the path of a generic input.',
              note='REAL arithmetic; phase searched in [-|h|-LM, |h|+LM]; alignment judged by the energy centroid of impulse responses away from the edges; pass-band accuracy of the default design not decided.'),
  'C10': dict(design='4/C10', text='Request histories are enumerated (all 6^3 quick / 6^5 thorough sequences over lengths {5,6,9,10,12,16} for the complex and the real cache, prefixes covering shorter ones, plus random '
              'mixed fft/ifft/rfft/irfft histories of length 4..8), data symbolic: every result must be the same term as that single request in a fresh machine (bit-identical for every input); after every request '
              'the hook-reported keys of both caches must number at most DSPLIB_FFT_CACHE_SIZE and be exactly the most recently used plans per a reference LRU run on the observed create_fft_plan/create_rfft_plan calls '
-             '(nested sub-plan requests included, completion order); plan objects taken before a history must return the same terms afterwards.',
+             '(nested sub-plan requests included, completion order); plan objects taken before a history must return the same terms afterwards; eviction-and-re-creation histories (a length, five other lengths, the length again) for all four request kinds; a request that ends in an exception (irfft of odd length) followed by an accepted one.',
              note='History is enumerated, not symbolic; single modelled thread; cache size = build default (4). Needs the DSPLIB_VERIF hook (read-only key accessors).'),
  'C05': dict(design='4/C05', text='About 800 misuse-directed call programs over 57 public entry points (plan objects applied to inputs of length {0,1,2,3,n-1,n,n+1,2n}, unequal array lengths, empty and one-sample frames, '
-             'degenerate orders, minimal analysis sizes) run under the symbolic interpreter with every memory and arithmetic obligation on (bounds of live blocks, use-after-free, nsw/nuw overflow, shifts, division, '
+             'degenerate orders, minimal analysis sizes, stft / istft / iscola overlaps around the window length, thd / snr / sinad with the spectral peak at every bin, transforms of empty arrays) run under the symbolic interpreter with every memory and arithmetic obligation on (bounds of live blocks, use-after-free, nsw/nuw overflow, shifts, division, '
              'fptosi range, llvm.assume = DSPLIB_ASSUME as shipped with NDEBUG, unreachable, step budget); index lists have fully symbolic 32-bit entries and z3 decides for every value whether an access can leave the array; '
              'nextpow2/ispow2 over all ints. Each finding is confirmed under an ASan+UBSan build (assume violations under a non-NDEBUG build, where DSPLIB_ASSUME also asserts) before it is reported.',
              note='Lengths enumerated at the boundary values rather than symbolic; sample values concrete in the program table; from_file / stream output / allocation failure outside; pointer-formation-only UB not reported.'),
